@@ -148,8 +148,12 @@ fn check_structure(case: &CodeCase, p: &mut Probe) -> Check {
         p.class("own-girth-computed");
     }
     if name == "R1_2" {
-        let g = guarded(|| h.girth()).map_err(|e| Fail::new("panic", format!("{name}: girth() panicked: {e}")))?;
-        ensure!(g == Some(6), "girth-library", "{name}: SparseMatrix::girth() = {g:?}, documented 6");
+        // the thread that asks has asked before: two other matrices' girths first (a short-frame code and a
+        // small one), so that whatever a girth search keeps per thread is no longer in its initial state
+        let _ = guarded(|| ldpc_toolbox::codes::dvbs2::Code::R1_4short.h().girth());
+        let _ = guarded(|| ldpc_toolbox::codes::dvbs2::Code::R8_9short.h().girth_with_max(8));
+        let g = guarded(|| h.girth()).map_err(|e| Fail::new("panic", format!("{name}: girth() panicked (after girth searches on two short-frame codes on the same thread): {e}")))?;
+        ensure!(g == Some(6), "girth-library", "{name}: SparseMatrix::girth() = {g:?}, documented 6 (after girth searches on two short-frame codes on the same thread)");
     }
     p.nontrivial();
     p.inner += n as u64;
@@ -287,7 +291,7 @@ pub fn property() -> Property {
         subs: vec![
             Box::new(EnumSub {
                 name: "structure",
-                rule: "exhaustive over the 21 code identifiers: dimensions against the harness's own copy of Tables 5a/5b; q = (n-k)/360; quasi-cyclic law for every group and every j in 1..360 (column = previous column shifted by q mod n-k, as sets); column-degree profile of the standard; exact dual-diagonal parity part; own 4-cycle search (row pairs sharing two columns); own bounded girth = 6 for normal 1/2 (all codes in thorough) and SparseMatrix::girth() = 6 on normal 1/2; equality, column by column, with an own re-expansion (section 5.3.2.1) of the pinned address tables and equality of the SHA-256 of the canonical edge list with the pinned digest; inner = columns examined",
+                rule: "exhaustive over the 21 code identifiers: dimensions against the harness's own copy of Tables 5a/5b; q = (n-k)/360; quasi-cyclic law for every group and every j in 1..360 (column = previous column shifted by q mod n-k, as sets); column-degree profile of the standard; exact dual-diagonal parity part; own 4-cycle search (row pairs sharing two columns); own bounded girth = 6 for normal 1/2 (all codes in thorough) and SparseMatrix::girth() = 6 on normal 1/2 (asked on a thread that has just searched the girth of two short-frame codes); equality, column by column, with an own re-expansion (section 5.3.2.1) of the pinned address tables and equality of the SHA-256 of the canonical edge list with the pinned digest; inner = columns examined",
                 cases: code_cases,
                 check: check_structure,
                 exhaustive: true,
